@@ -68,7 +68,16 @@ def apply(outs: dict[str, Any], spec: dict) -> tuple[dict[str, Any], dict]:
             if x.ndim == 0:
                 return x
             bump(k)
-            return x.with_tagged_axis(int(rng.integers(x.ndim)), usertags.BarTag())
+            # the axis is named by a non-negative or by the equivalent NEGATIVE index (both
+            # address axes[iaxis]); the result is an array of the same rank with one Axis
+            # per axis, the tag on the axis that was meant
+            ax = int(rng.integers(x.ndim))
+            y = x.with_tagged_axis(ax - x.ndim if rng.random() < 0.5 else ax, usertags.BarTag())
+            if len(y.axes) != y.ndim or not y.axes[ax].tags_of_type(usertags.BarTag):
+                raise ValueError(f"with_tagged_axis({ax - x.ndim} / {ax}) on a rank-{x.ndim} "
+                                 f"array returns {len(y.axes)} axes, tag on "
+                                 f"{[k for k, a in enumerate(y.axes) if a.tags]}")
+            return y
         if k == "redn":
             if isinstance(x, pt.IndexLambda) and x.var_to_reduction_descr:
                 bump(k)
